@@ -35,9 +35,21 @@ try:
 except Exception:  # noqa
     HAVE_WS = False
 
+class _Tagged(str):
+    def __str__(self):
+        return "********"
+
+    def __format__(self, spec):
+        return "********"
+
+    def __repr__(self):
+        return "<tagged>"
+
+
 DIMS = {
     "scheme": ["ws", "wss"],
-    "host": ["example.test", "Sub.Example.TEST", "10.1.2.3", "[2001:db8::1]"],
+    # (the last one: a link-local IPv6 literal with a zone identifier, RFC 6874)
+    "host": ["example.test", "Sub.Example.TEST", "10.1.2.3", "[2001:db8::1]", "[fe80::1%25eth0]"],
     "port": [None, 80, 443, 8080, 1, 65535],
     "path": ["", "/", "/a/b", "/a%20b", "/chat/"],
     "query": [None, "x=1", "x=1&y=2"],
@@ -54,7 +66,10 @@ DIMS = {
                  # requests far beyond 16 KiB (many headers, each below the usual 8 KiB line limit), in ASCII and with non-ASCII text
                  # (one character is then several bytes on the wire)
                  [f"X-P{i}: " + "p" * 700 for i in range(40)], [f"X-U{i}: " + "\u00e9" * 500 for i in range(40)],
-                 {f"X-D{i}": ("\u20ac" * 300 if i % 2 else "d" * 900) for i in range(30)}, {"X-One": "\u00e9" * 3000, "X-Two": "z" * 7000}],
+                 {f"X-D{i}": ("\u20ac" * 300 if i % 2 else "d" * 900) for i in range(30)}, {"X-One": "\u00e9" * 3000, "X-Two": "z" * 7000},
+                 # names and values whose type is a str subclass with a rendering of its own (a str-mixin enum, a "secret" string that
+                 # prints as stars): the text itself is what the option specifies
+                 {"X-Api-Version": _Tagged("v2"), _Tagged("Authorization"): _Tagged("Bearer s3cr3t")}, [_Tagged("X-Tagged-Line: yes"), "X-Plain: 1"]],
     # the URL is reached through a redirect from another URL (of the other or of the same scheme): the request reflects the URL it is sent to
     "redirected": [None, None, None, "other-scheme", "same-scheme", "other-scheme-same-authority"],
     "o_connection": [None, "keep-alive, Upgrade"],
@@ -279,7 +294,7 @@ def one(res, W, c, keys_seen, fresh=False):
     elif isinstance(h, dict):
         exp_custom = [(k, v) for k, v in h.items() if v is not None]
     # the request is written as UTF-8; the reference parser hands field values back as latin-1 text
-    exp_custom = [(k, v.encode("utf-8").decode("latin-1")) for k, v in exp_custom]
+    exp_custom = [(str.__str__(k) if False else "".join(k), "".join(v).encode("utf-8").decode("latin-1")) for k, v in exp_custom]
     std = {"host", "upgrade", "connection", "sec-websocket-version", "sec-websocket-key", "origin", "sec-websocket-protocol", "cookie"}
     custom_seen = [(k, v) for k, v in headers if k.lower() not in std]
     if sorted(custom_seen) != sorted(exp_custom):
